@@ -19,7 +19,7 @@ for pid in sorted(CLAIMED):
         "evidence_file": f"/verif/evidence/{pid}.json",
         "replay_cmd_template": "./check replay {path}",
         "engine": "govc",
-        "level_claimed": {"category": "proof", "text": c["text"], "design_ref": c.get("design_ref", "DESIGN.md section 4")},
+        "level_claimed": {"category": c.get("category", "proof"), "text": c["text"], "design_ref": c.get("design_ref", "DESIGN.md section 4")},
         "level_note": c["note"],
         "technique": "contract-based deductive verification: weakest-precondition VCs generated from go/ssa of the real functions, contracts in //go:build verif comment files, discharged by z3/cvc5",
     })
